@@ -39,10 +39,16 @@ FORMULAS = [
     "cc(a, df=3)", "cs(a, df=4)", "C(A)", "C(A, contr.sum)", "C(A, contr.poly)", "C(A, contr.helmert)", "C(A, contr.treatment('y'))", "A",
     "log(a)", "{a*b}", "A:a", "center(a):A", "scale(center(a))", "hashed(A, levels=3)", "center(a) + scale(b) + A",
     "bs(a, df=4):A", "poly(a, 2) + C(A, contr.sum):b",
+    # stateful transforms wrapped around multi-column transforms (state nested per column, integer column keys)
+    "scale(bs(a, df=4))", "center(cr(a, df=3))", "scale(poly(a, 2))",
+    # explicit bounds narrower than the data: the extrapolation rule must be replayed too
+    "cr(a, df=3, lower_bound=2.0, upper_bound=5.0, extrapolation='clip')", "cc(a, df=3, lower_bound=2.0, upper_bound=5.0, extrapolation='clip')",
+    "bs(a, df=4, lower_bound=2.0, upper_bound=5.0, extrapolation='clip')", "bs(a, df=4, lower_bound=2.0, upper_bound=5.0, extrapolation='zero')",
+    "cr(a, df=3, lower_bound=2.0, upper_bound=5.0, extrapolation='zero')",
     # literal scalings must survive the replay through the recorded structure
     "2.5:a", "3:center(a)", "2:A", "0 + 2.5:a:A",
     # the same stateful call more than once inside one factor / across factors
-    "{center(a) * center(a)}", "I(scale(a) + scale(a))", "{center(a) * center(b)} + center(a)", "{bs(a, df=4)[:, 0] + bs(a, df=4)[:, 1]}",
+    "{center(a) * center(a)}", "I(scale(a) + scale(a))", "{center(a) * center(b)} + center(a)", "{bs(a, df=4)[1] + bs(a, df=4)[2]}",
 ]
 
 
